@@ -23,7 +23,9 @@ func Check() *engine.Check {
 			"with the enumerated error, with error pipeline none / real default / real redirect (302 templated, 301) / real www_authenticate " +
 			"(default, configured, rule-level realm), and the request no rule matches; x 3 override sets x verbose x Accept. (c) the challenge the real " +
 			"www_authenticate handler records (the services drop it, known finding): 3 prototype realms x 3 rule-level realms x every sequence of up to 2 " +
-			"other members of the family derived and executed before. " +
+			"other members of the family derived and executed before. (d) failures at the hop behind the proxy after a successful pipeline " +
+			"(connection refused, closed without an answer, closed inside the headers, answer that is not HTTP, caller gone while waiting) x method x " +
+			"body x verbose: 502, never a success. " +
 			"A translator case is non-trivial when the kind cannot be read off the outermost value (>= 2 chain elements or a wrapper); " +
 			"every assembled case is non-trivial (a real pipeline failed and crossed the whole translation path). Cases are enumerated once, so distinct = counted.",
 		Assumptions: []string{
@@ -53,6 +55,7 @@ func run(c *engine.Ctx) {
 	runIso(c, &work)
 	runAsm(c, &work)
 	runHandlers(c, &work)
+	runUpstreamFaults(c, &work)
 }
 
 func replay(c *engine.Ctx, raw json.RawMessage) {
@@ -133,6 +136,8 @@ func replay(c *engine.Ctx, raw json.RawMessage) {
 		fmt.Printf("replay: pipeline=%s failing_step=%s error=%s overrides=%+v verbose=%v accept=%q steps=%v\n  decision: %+v\n  proxy:    %+v\n  envoy:    %+v\n",
 			h.Name, ac.Step, ac.Err, ac.Opts, ac.Verbose, a.Value, tr, d, p, en)
 		evalAsm(c, tally{}, s, h, ac.Step, ac.Err, e, ac.Opts, ac.Verbose, a)
+	case "upstream-faults":
+		replayUpstream(c, raw)
 	case "handlers":
 		var hc HandlerCase
 		if err := json.Unmarshal(raw, &hc); err != nil {
